@@ -41,3 +41,7 @@ Lemma src_resel_ok D root wedge v :
   src_resel2fwhm pos_recipr root D wedge v = resel2fwhm root wedge v /\
   src_fwhm2resel pos_recipr root D wedge v = fwhm2resel D wedge v.
 Proof. split; reflexivity. Qed.
+
+Lemma src_wedge_ok D root wedge detA :
+  src_wedge pos_recipr root D wedge detA = wedge_of root detA /\ src_integrate_is_masked_mean = true.
+Proof. split; reflexivity. Qed.
